@@ -25,6 +25,10 @@ type C19Case struct {
 	// raise kind
 	// Once (fn kind): the failing call carries the synchronous qualifier ONCE (one invocation per query)
 	Once      bool   `json:"once,omitempty"`
+	// ErrVal (fn kind): what the failing invocation returns next to its error (0 nothing, 1 Go int 0, 2 its
+	// argument, 3 a float32); External: the function was registered through RegisterExternalFunction
+	ErrVal   int  `json:"err_val,omitempty"`
+	External bool `json:"external,omitempty"`
 	RaiseSQL  string `json:"raise_sql,omitempty"`  // query containing RAISE / RAISE_WHEN
 	RaiseProb string `json:"raise_prob,omitempty"` // probe query: non-empty result <=> the raise fires
 }
@@ -109,6 +113,10 @@ func genC19(t *rapid.T) any {
 	ms := c.W.markers()
 	c.Plant = rapid.IntRange(0, maxInt(len(ms)-1, 0)).Draw(t, "plant")
 	c.Once = kind == "fn" && rapid.IntRange(0, 5).Draw(t, "once") == 0
+	if kind == "fn" {
+		c.ErrVal = rapid.SampledFrom([]int{0, 0, 0, 1, 2, 3}).Draw(t, "errval")
+		c.External = rapid.IntRange(0, 2).Draw(t, "external") == 0
+	}
 	if kind == "fn" && !c.Once && rapid.IntRange(0, 5).Draw(t, "spin") == 0 {
 		c.Spin = rapid.SampledFrom([]string{"SPINASYNC", "SPIN"}).Draw(t, "spinq")
 	}
@@ -206,6 +214,16 @@ func checkC19(c *C19Case) Result {
 	if c.Spin != "" && c.Kind == "fn" {
 		wrapFn = c.Spin + ".vf_id(vf_fail(%s))"
 		res.Labels = append(res.Labels, "fault-in-argument-of-"+c.Spin)
+	}
+	if c.External && c.Kind == "fn" {
+		if wrapFn == "" {
+			wrapFn = "vf_fail"
+		}
+		wrapFn = strings.Replace(wrapFn, "vf_fail", "vf_failx", 1)
+		res.Labels = append(res.Labels, "fault-in-external-function")
+	}
+	if c.ErrVal != 0 && c.Kind == "fn" {
+		res.Labels = append(res.Labels, fmt.Sprintf("error-with-value:%d", c.ErrVal))
 	}
 	sqlF := w.SQL(c.Plant, wrapFn)
 	base := Run(val.CopyMap(w.Doc), sqlF, w.opts())
@@ -330,6 +348,7 @@ func checkC19(c *C19Case) Result {
 	}
 	for k := 1; k <= limit; k++ {
 		injReset(int64(k), 0)
+		injSetErrVal(c.ErrVal)
 		doc := val.CopyMap(w.Doc)
 		prepared := Build(doc, sqlF, w.opts())
 		out := prepared.Exec()
